@@ -98,6 +98,9 @@ def parseTy? (s : String) : Option Bool :=
     if rc == "p" || rc == "r" || rc == "b" then
       if ty == "f64" then some true
       else if ty == "i64" || ty == "u8" || ty == "i8" || ty == "str" then some false
+      -- part 3: the element-layout ladder `L<bytes>[s]` (tuples / nested tuples of 3 … 72 bytes) and `sl<k>` (Strings sharing a stem
+      -- of k bytes): the harness maps the integer tags strictly monotonically into those types, the model runs on the tags
+      else if (ty.startsWith "L" || ty.startsWith "sl") && ty.length ≤ 8 then some false
       else none
     else none
   | _ => none
